@@ -34,6 +34,7 @@ func (fn *Function) instance(rtargs, targs []types.Type, b *builder) *Function {
 	defer gen.instancesMu.Unlock()
 	inst, ok := gen.instances[key]
 	if !ok {
+		verifEvent("creating", b, nil)
 		inst = createInstance(fn, rtargs, targs)
 		inst.buildshared = b.shared()
 		b.enqueue(inst)
